@@ -112,6 +112,8 @@ impl<T> TimeOutList<T> {
     }
 
     fn install_timer_bh(&self, entry: IntervalEntry<T>) {
+        #[cfg(may_verif)]
+        may_queue::verif::point(may_queue::verif::site::TL_INSTALL_BH, 0);
         if entry.list.in_use.fetch_add(1, Ordering::AcqRel) == 0 {
             self.timer_bh.lock().push(entry);
         }
@@ -206,12 +208,16 @@ impl<T> TimeOutList<T> {
                 entry
             };
 
+            #[cfg(may_verif)]
+            may_queue::verif::point(may_queue::verif::site::TL_SCHED_POPPED, 0);
             // consume all the timeout event
             // the binary heap can be modified here
             // during running the timeout handler
             match entry.pop_timeout(now, f) {
                 Some(time) => {
                     if entry.list.in_use.fetch_add(1, Ordering::AcqRel) == 0 {
+                        #[cfg(may_verif)]
+                        may_queue::verif::point(may_queue::verif::site::TL_SCHED_REPUSH, 0);
                         // re-push the entry
                         entry.time = time;
                         self.timer_bh.lock().push(entry);
@@ -260,6 +266,8 @@ impl<T> TimerThread<T> {
 
     pub fn add_timer(&self, dur: Duration, data: T) -> TimeoutHandle<T> {
         let (h, is_recal) = self.timer_list.add_timer(dur, data);
+        #[cfg(may_verif)]
+        may_queue::verif::point(may_queue::verif::site::TT_ADD_BEFORE_WAKE, 0);
         // wake up the timer thread if it's a new queue
         if is_recal {
             if let Some(t) = self.wakeup.take() {
@@ -271,6 +279,8 @@ impl<T> TimerThread<T> {
 
     pub fn del_timer(&self, handle: TimeoutHandle<T>) {
         self.remove_list.push(handle);
+        #[cfg(may_verif)]
+        may_queue::verif::point(may_queue::verif::site::TT_DEL_PUSHED, 0);
         if let Some(t) = self.wakeup.take() {
             t.unpark();
         }
@@ -286,6 +296,8 @@ impl<T> TimerThread<T> {
             // we must register the thread handle first
             // or there will be no signal to wakeup the timer thread
             self.wakeup.store(current_thread.clone());
+            #[cfg(may_verif)]
+            may_queue::verif::point(may_queue::verif::site::TT_RUN_REGISTERED, 0);
 
             if !self.remove_list.is_empty() {
                 if let Some(t) = self.wakeup.take() {
@@ -293,6 +305,8 @@ impl<T> TimerThread<T> {
                 }
             }
 
+            #[cfg(may_verif)]
+            may_queue::verif::point(may_queue::verif::site::TT_BEFORE_PARK, 0);
             match self.timer_list.schedule_timer(now(), f) {
                 Some(time) => thread::park_timeout(Duration::from_nanos(time)),
                 None => thread::park(),
